@@ -3,17 +3,17 @@ namespace Pamqp.Props
 open Pamqp
 
 theorem tieA_guards :
-    (guardOf "encode.short_int" == [("int", some (-32768), some 32767, "TypeError", "Struct.short")]) = true ∧
-    (guardOf "encode.short_uint" == [("int", some 0, some 65535, "TypeError", "Struct.ushort")]) = true ∧
-    (guardOf "encode.long_int" == [("int", some (-2147483648), some 2147483647, "TypeError", "Struct.long")]) = true ∧
-    (guardOf "encode.long_uint" == [("int", some 0, some 4294967295, "TypeError", "Struct.ulong")]) = true ∧
-    (guardOf "encode.long_long_int" == [("int", some (-9223372036854775808), some 9223372036854775807, "TypeError", "Struct.long_long_int")]) = true ∧
-    (guardOf "encode.octet" == [("int", none, none, "TypeError", "Struct.byte")]) = true ∧
-    (guardOf "encode.boolean" == [("bool", none, none, "TypeError", "Struct.short_short_uint")]) = true ∧
-    (guardOf "encode.byte_array" == [("bytearray", none, none, "TypeError", "Struct.integer")]) = true ∧
-    (guardOf "encode.decimal" == [("_decimal.Decimal", none, none, "TypeError", ">Bi")]) = true ∧
-    (guardOf "encode.double" == [("float", none, none, "TypeError", "Struct.double")]) = true ∧
-    (guardOf "encode.floating_point" == [("float", none, none, "TypeError", "Struct.float")]) = true ∧
-    (guardOf "encode.bit" == [("value not in (0, 1)", none, none, "TypeError", "")]) = true := by decide
+    (guardOf "encode.short_int" == [("int", some (-32768), some 32767, "TypeError")]) = true ∧
+    (guardOf "encode.short_uint" == [("int", some 0, some 65535, "TypeError")]) = true ∧
+    (guardOf "encode.long_int" == [("int", some (-2147483648), some 2147483647, "TypeError")]) = true ∧
+    (guardOf "encode.long_uint" == [("int", some 0, some 4294967295, "TypeError")]) = true ∧
+    (guardOf "encode.long_long_int" == [("int", some (-9223372036854775808), some 9223372036854775807, "TypeError")]) = true ∧
+    (guardOf "encode.octet" == [("int", none, none, "TypeError")]) = true ∧
+    (guardOf "encode.boolean" == [("bool", none, none, "TypeError")]) = true ∧
+    (guardOf "encode.byte_array" == [("bytearray", none, none, "TypeError")]) = true ∧
+    (guardOf "encode.decimal" == [("_decimal.Decimal", none, none, "TypeError")]) = true ∧
+    (guardOf "encode.double" == [("float", none, none, "TypeError")]) = true ∧
+    (guardOf "encode.floating_point" == [("float", none, none, "TypeError")]) = true ∧
+    (guardOf "encode.bit" == [("value not in (0, 1)", none, none, "TypeError")]) = true := by decide
 
 end Pamqp.Props
